@@ -186,9 +186,23 @@ def run_bin(ctx, which, port, lines, timeout=600):
         f.write("\n".join(lines) + "\n")
     exe = os.path.join(ctx.work, which)
     env = dict(os.environ, GOMEMLIMIT="6GiB", GOMAXPROCS="4")
-    with open(path) as fin:
-        p = subprocess.run([exe, port], stdin=fin, stdout=subprocess.PIPE, stderr=subprocess.PIPE,
-                           text=True, timeout=timeout, env=env)
+    try:
+        with open(path) as fin:
+            p = subprocess.run([exe, port], stdin=fin, stdout=subprocess.PIPE, stderr=subprocess.PIPE,
+                               text=True, timeout=timeout, env=env)
+    except subprocess.TimeoutExpired as e:
+        # the time budget is over (a client that hangs in many scripts makes each of them slow): what was done so far counts
+        os.unlink(path)
+        so = e.stdout or ""
+        if isinstance(so, bytes):
+            so = so.decode("utf-8", "replace")
+        out = so.splitlines()
+        if out and not out[-1].startswith(("end ", "reset")):
+            out = out[:-1]      # a possibly cut line
+        # drop the case in progress: only complete cases are judged
+        while out and not out[-1].startswith("end "):
+            out.pop()
+        return out
     os.unlink(path)
     out = p.stdout.splitlines()
     if p.returncode != 0:
